@@ -120,6 +120,10 @@ add("lang", "file", "_Alignas(4) int *q%d;", "_Alignas(2) short sa%d, *ps%d;", "
     "_Alignas(1) char ok%d, **bad%d;")
 add("lang", "block", "{ _Alignas(4) int *lq%d; }", "{ static _Alignas(2) short *ls%d; }", "{ _Alignas(4) char *la%d[2]; }")
 
+# ... also when a local without linkage hides the file-scope declaration from the block-scope extern
+add("lang", "block", "{ int gi = 0; { extern long gi; } }", "{ int gf = 0; { extern int gf; } }", "{ int gd = 0; { extern float gd; } }", "{ int gfn2 = 0; { int gfn2(int); } }",
+    "{ typedef int garr; { extern int garr[5]; } }", "{ enum { gl }; { extern int gl; } }")
+
 # ---- unsupported features ------------------------------------------------------------------------------------
 add("unsup", "file", "_Atomic int q%d;", "_Atomic(int) q%d;", "int _Atomic q%d;", "_Complex double q%d;", "double _Complex q%d;", "long double q%d = 1.0L;", "struct __attribute__((aligned(8))) ua%d { char c; };",
     "struct __attribute__((packed)) up%d { int a:3; };", "__attribute__((aligned(8))) int q%d;", "[[gnu::packed]] int q%d;", "__asm__(\"nop\");", "long double q%d(long double a) { return a + 1; }",
